@@ -10,7 +10,9 @@ TRUSTED_EXTRA = ["/verif/scanner: translator from the Go source to Generated/Foo
 SOURCES = ["find all @/(a)(b)(c)\\3\\2\\1/", "find all @/((a)|b)+c/", "find all 'a' or 'b'", "set p to pattern at least 1 digit\nfind all p '-' p",
            "find all {'(' maybe s ')'} = s", "replace all (letter = x) x with x", "find all @/(x)(y)?/", "find all (",
            # group numbers run across all regex literals of one source: numbering must be atomic per Compile
-           "find all @/(a)(b)/ '-' @/(c)(d)/", "find all @/\\\\(a)\\\\(b)/", "find all @/\\((a)\\)/", "find all @/a/ @/(b)\\1/ @/(c)\\2/", "find all @/(a)/\nfind all @/(b)(c)\\3/", "find all @/(a)(b)/ @/\\3/",
+           "find all @/(a)(b)/ '-' @/(c)(d)/", "find all @/\\\\(a)\\\\(b)/", "find all @/\\((a)\\)/",
+           # sources that are rejected AFTER a numbered group was opened: nothing of a failed Compile may be left for the next one
+           "find all @/(a/", "find all @/(a)(b)/ =", "find all @/(a)/ find 3x", "find all @/((a)(b)/", "find all @/a/ @/(b)\\1/ @/(c)\\2/", "find all @/(a)/\nfind all @/(b)(c)\\3/", "find all @/(a)(b)/ @/\\3/",
            # named loops (their ids come from the generator too), nested in each other
            "find all at least 1 (letter = c) named cs", "find all at least 1 (at least 1 digit named ds '-') named groups", "find all between 1 and 2 (at least 1 'a' named as 'b') named abs",
            # unnamed loops directly inside loops: their ids are drawn one after the other from the process-wide source; whatever other goroutines do in between,
